@@ -74,6 +74,19 @@ def wire_props(ctx, modes, want, floor_impls, only_crates=None, w4_sides=None, p
     return ts
 
 
+def align_pair(ctx, roles):
+    """the shared align rule restricted to the given implementations"""
+    rep = ctx.rep
+    u = ctx.universe("default", CORPUS)
+    sub = Report(rep.prop, rep.tier)
+    rules_align.rule_align_impls(u, sub)
+    for f in sub.findings:
+        if any(r in f.key for r in roles) or f.rule == "FLOOR":
+            rep.findings.append(f)
+    rep.obligations += sub.obligations
+    rep.discharged += sub.discharged
+
+
 def check_C01(ctx):
     rep = ctx.rep
     rep.rule("W1", "per impl and per static/selector case: normalised wire term of _serialize_inner == that of _deserialize_full_inner")
@@ -82,6 +95,8 @@ def check_C01(ctx):
     rep.rule("W4", "every raw block is immediately preceded by the alignment point of its own unit")
     rep.rule("W5", "every written type has a reader or is a write-only view")
     wire_props(ctx, ("full",), ("W1", "W2", "W3", "W4", "W5", "PROB"), 56)
+    rep.rule("ALIGN", "the writer's align and the stream reader's align move by the same amount pad_align_to(position, unit(T)) (the alignment point is an atom of the wire terms; its two implementations are compared here)")
+    align_pair(ctx, ("default WriteWithNames", "ReaderWithPos"))
     return ("Static sibling agreement (writer vs full-copy reader) of every built-in impl: wire terms extracted by abstract "
             "interpretation of THIR with every stream value symbolic; by induction over types, agreement at every impl is the "
             "static content of the round trip. Value-level leaf pairings (to_ne_bytes/from_ne_bytes, bool, char) are not decided.")
@@ -92,6 +107,8 @@ def check_C02(ctx):
     rep.rule("W1", "normalised wire term of _serialize_inner == that of _deserialize_eps_inner, per static case (Zero/Deep, size_of==0)")
     rep.rule("WIRE-*", "cursor discipline of the eps reader: every peek is consumed by a skip of the same amount, position advanced by the same n")
     wire_props(ctx, ("eps",), ("W1", "W2", "W3", "W4", "PROB"), 56)
+    rep.rule("ALIGN", "the writer's align and the slice reader's align move by the same amount pad_align_to(position, unit(T))")
+    align_pair(ctx, ("default WriteWithNames", "SliceWithPos"))
     rep.rule("WITNESS", "the documented DeserType substitution as generic compile-pass witnesses (proved by rustc for all instantiations) with negative controls")
     from . import witness
     n = witness.run_probes(ctx, rep, "C02")
@@ -283,7 +300,22 @@ def check_C06(ctx):
     rep.rule("GOLDEN", "writer wire terms (order, widths, tag constants, padding points, leaf encoders), hash recipes, header atoms and constants of the built-in impls = spec/format_v1_1.json (format v1.1 as read against the README)")
     rep.rule("G6", "MAGIC, MAGIC_REV, VERSION = published values")
     rep.rule("DERIVED", "derived writers: fields in declaration order, usize variant index in declaration order, zero-copy = align + memory image (corpus)")
-    n = golden_compare(ctx, ("writers", "readers_leaf", "type_hash", "align_hash", "header", "consts"))
+    n = golden_compare(ctx, ("writers", "readers_leaf", "type_hash", "align_hash", "header", "consts", "units"))
+    # folded units of the closed-type universe (the padding rule for concrete types)
+    try:
+        uu, cname = units_universe(ctx)
+        if cname == "wunits":
+            cur_units = golden.closed_units(uu, cname)
+            spec_units = golden.load().get("units_closed", {})
+            for k, want in spec_units.items():
+                got = cur_units.get(k)
+                ok = got == want
+                rep.oblige(ok)
+                n += 1
+                if not ok:
+                    rep.add("GOLDEN", "unit:" + k, "format v1.1 pads blocks of `%s` to a multiple of %s bytes; the current tree uses %s" % (k, want, got))
+    except ExportError as ex:
+        rep.add("GOLDEN", "units:universe", "the universe of closed zero-copy types no longer compiles: " + str(ex)[-300:])
     rep.floor("golden entries compared", n, 200)
     u, w, ts, exp = ctx.triples("default", CORPUS)
     rules_header.rules_G6(u, rep)
